@@ -1,0 +1,11 @@
+//go:build verif
+
+// Contracts for govc (comment-only file; see /verif/DESIGN.md section 3).
+package keygen
+
+// ---- start function (C20): keygen (no key material) or refresh (both the share and the public key)
+//@ func StartKeygen$1
+//@   nopanic[C20]
+//@   requires group != nil
+//@   ensures[C20] result1 != nil ==> result0 == nil
+//@   ensures[C20] result1 == nil ==> (result0 != nil && ((old(secretShare) == nil) == (old(public) == nil)))
